@@ -155,7 +155,7 @@ func (s *scn) countForms(ctx string, ps []pat) {
 
 func joinPats(ps []pat) string { return strings.Join(patTexts(ps), ",") }
 
-func runScenario(run *evid.Run, src *source, k int) {
+func runScenario(run *evid.Run, src *source, k, nscen int) {
 	s := &scn{run: run, src: src, k: k}
 	s.r = rand.New(rand.NewSource(run.Seed*1000003 + int64(src.idx)*1009 + int64(k)))
 	defer func() {
@@ -167,15 +167,26 @@ func runScenario(run *evid.Run, src *source, k int) {
 	defer s.env.Cleanup()
 	s.plan = genPlan(s.r, src, k)
 	s.srvRepo = fmt.Sprintf("s%d", k)
-	if fp := genFault(run.Seed, src.idx, k, s.plan); fp != nil {
+	tail := genTail(run.Seed, src, k, nscen, s.plan)
+	if tail != nil {
+		s.plan.Ops = append(s.plan.Ops, *tail)
+		run.Count("tail_shapes_planned_"+tail.Shape, 1)
+	}
+	fp := genFault(run.Seed, src.idx, k, s.plan)
+	if fp == nil && tail != nil && tail.FaultTail {
+		// an otherwise fault-free scenario whose last command, fetch --refetch, meets a server that fails for one or
+		// two objects for good: the command fails, the objects that were in the store must still be there and valid
+		fp = &faultPlan{Kind: tail.FaultKind, Retries: 1, Via: "home", Target: len(s.plan.Ops), NVictims: 1 + k%2, TailOnly: true}
+	}
+	if fp != nil {
 		s.fp = fp
 		s.plan.Fault = fp
 		s.fr = rand.New(rand.NewSource(run.Seed*3000017 + int64(src.idx)*1019 + int64(k)*11 + 3))
 		// the faults are about downloads: keep some for the clone to make, and prefer the long-running filter
-		if s.plan.Store == "reference-full" {
+		if s.plan.Store == "reference-full" && !fp.TailOnly {
 			s.plan.Store = "reference-subset"
 		}
-		if s.fr.Intn(5) != 0 {
+		if !fp.TailOnly && s.fr.Intn(5) != 0 {
 			s.plan.Driver = "process"
 		}
 		s.fs = &faultScript{run: run, kind: fp.Kind, victims: map[string]*victimState{}}
@@ -387,7 +398,11 @@ func (s *scn) headBlobs() map[string]string {
 
 func (s *scn) runOp(step int, o opPlan) {
 	p := s.plan
-	c := &opCtx{kind: o.Kind, mut: map[string]string{}}
+	if o.Kind == "lfs-checkout-to" {
+		s.runCheckoutTo(o)
+		return
+	}
+	c := &opCtx{kind: o.Kind, mut: map[string]string{}, shape: o.Shape, op: o}
 	if o.Mutate {
 		c.mut = s.mutate()
 	}
@@ -411,6 +426,13 @@ func (s *scn) runOp(step int, o opPlan) {
 	case "lfs-fetch", "lfs-pull":
 		c.inc, c.exc = eff(o.Inc, p.CfgInc), eff(o.Exc, p.CfgExc)
 		args = []string{"lfs", strings.TrimPrefix(o.Kind, "lfs-")}
+		if o.Shape != "" {
+			s.shapeSetup(o)
+			args = append(args, shapeArgs(o)...)
+			if o.All {
+				c.inc, c.exc = nil, nil // documented: configured include / exclude are ignored
+			}
+		}
 		if o.Inc != nil {
 			args = append(args, "-I", joinPats(*o.Inc))
 			s.countForms("opt-I", *o.Inc)
@@ -428,6 +450,9 @@ func (s *scn) runOp(step int, o opPlan) {
 		c.inc = o.Paths
 		s.countForms("checkout-arg", o.Paths)
 		args = append([]string{"lfs", "checkout"}, patTexts(o.Paths)...)
+	}
+	if o.Shape != "" {
+		c.preStore = s.validStore()
 	}
 	c.pre = snapshot(s.clone)
 	c.preLocal = map[string]bool{}
@@ -463,6 +488,9 @@ func (s *scn) runOp(step int, o opPlan) {
 				}
 			}
 		case "lfs-fetch":
+			if o.DryRun {
+				return nil
+			}
 			revs := o.Refs
 			if len(revs) == 0 {
 				revs = []string{"HEAD"}
@@ -471,6 +499,23 @@ func (s *scn) runOp(step int, o opPlan) {
 			for _, rev := range revs {
 				ps = append(ps, ptrsAt(s.env, s.model, rev)...)
 			}
+			if o.All {
+				for _, d := range s.allDemands(o.Refs) {
+					ps = append(ps, d.pi)
+				}
+			}
+			if o.Refetch {
+				// objects that are present are fetched again
+				var out []string
+				seen := map[string]bool{}
+				for _, pi := range ps {
+					if _, has := s.src.g.Contents[pi.Oid]; has && pi.Tracked && !seen[pi.Oid] && selected(c.inc, c.exc, pi.Path) {
+						seen[pi.Oid] = true
+						out = append(out, pi.Oid)
+					}
+				}
+				return out
+			}
 			return s.candidates(ps, c.inc, c.exc, nil)
 		case "lfs-pull":
 			return s.candidates(ptrsAt(s.env, s.model, "HEAD"), c.inc, c.exc, nil)
@@ -478,6 +523,11 @@ func (s *scn) runOp(step int, o opPlan) {
 		return nil // lfs checkout never downloads
 	})
 	inj0 := s.injected()
+	if o.Shape != "" {
+		if l := s.src.srv.Log(); len(l) > 0 {
+			c.logSeq = l[len(l)-1].Seq
+		}
+	}
 	c.res = s.exec(o.Kind, cwd, envExtra, "git", args...)
 	if s.stop {
 		return
@@ -588,6 +638,10 @@ type opCtx struct {
 	mut       map[string]string
 	res       sbx.Result
 	injected  int // scripted server faults answered while the command ran
+	shape     string          // tail shape ("" = ordinary operation)
+	op        opPlan          // the operation (tail shapes)
+	preStore  map[string]bool // tail shapes: oids hash-valid in lfs/objects before the command
+	logSeq    int             // tail shapes: last server request before the command
 }
 
 func classify(st fstate, ok bool, pi pinfo) string {
@@ -617,6 +671,9 @@ func sameState(a fstate, aok bool, b fstate, bok bool) bool {
 // patterns that should not match > object source > nothing special.
 func (s *scn) trigger(c *opCtx, pi pinfo) string {
 	t := c.kind
+	if c.shape != "" {
+		t += "-" + c.shape
+	}
 	if s.fs != nil && s.fs.injectedFor(pi.Oid) > 0 {
 		// the server misbehaved for this very object (now or in an earlier step)
 		return t + "-fault-" + s.fp.Kind
@@ -759,12 +816,75 @@ func (s *scn) judge(c *opCtx) {
 		for _, p := range sortedKeys(all) {
 			expectUnchanged(p, "worktree-changed-by-fetch", "lfs-fetch", "fetch must not touch the working tree")
 		}
+		if c.preStore != nil {
+			// an intact local store stays intact, whatever the exit status
+			lost := 0
+			for _, oid := range sortedKeys(c.preStore) {
+				s.run.Count("store_objects_rechecked_after_fetch_shape", 1)
+				if !s.localValid(oid) {
+					lost++
+					if lost <= 3 {
+						s.viol("store-object-lost-or-corrupted", "lfs-fetch-"+c.shape, fmt.Sprintf("object %s was hash-valid in lfs/objects before git %s (exit %d) and is not afterwards", oid, strings.Join(c.res.Args[1:], " "), c.res.Code))
+					}
+				}
+			}
+			if c.op.Refetch {
+				n := 0
+				for _, rq := range s.src.srv.Log() {
+					if rq.Repo == s.srvRepo && rq.Kind == "storage-get" && c.preStore[rq.Oid] && rq.Seq > c.logSeq {
+						n++
+					}
+				}
+				s.run.Count("refetch_downloads_of_objects_already_present", int64(n))
+			}
+		}
 		if !ok {
+			return
+		}
+		if c.shape != "" {
+			s.run.Count("tail_shapes_exit_zero_"+c.shape, 1)
+		}
+		if c.op.JSON {
+			s.countJSON(c.res.Stdout)
+		}
+		if c.op.DryRun {
+			// not in the property: counted only
+			gained := 0
+			for oid := range s.validStore() {
+				if !c.preStore[oid] {
+					gained++
+				}
+			}
+			s.run.Count("dry_run_fetches", 1)
+			s.run.Count("dry_run_objects_gained", int64(gained))
+			return
+		}
+		if c.op.All {
+			ds := s.allDemands(c.fetchRefs)
+			s.run.Count("fetch_all_objects_demanded", int64(len(ds)))
+			for _, d := range ds {
+				s.run.Count("paths_selected", 1)
+				requireObject(d.pi, d.why)
+			}
 			return
 		}
 		revs := c.fetchRefs
 		if len(revs) == 0 {
 			revs = []string{"HEAD"}
+		}
+		if c.op.Recent || c.op.RecentAlways {
+			shape := c.shape
+			doneR := map[string]bool{}
+			for _, d := range s.recentDemands(c, c.op, revs) {
+				if doneR[d.pi.Oid+d.shape] {
+					continue
+				}
+				doneR[d.pi.Oid+d.shape] = true
+				s.run.Count("recent_objects_demanded_"+d.shape, 1)
+				c.shape = d.shape
+				requireObject(d.pi, d.why)
+			}
+			c.shape = shape
 		}
 		done := map[string]bool{}
 		for _, rev := range revs {
